@@ -11,9 +11,8 @@ import Dashu.Props.GenInt
 
   Structure:
   * §1 conventions: what `Int.tdiv/tmod` and `Int.ediv/emod` mean (identity, range, sign);
-  * §2 kernels: word / double-word divisors, Knuth D step and loop, multi-word division
-        (Burnikel–Ziegler above THRESHOLD_SIMPLE on both lengths is a FRONTIER kernel, defined as
-        its specification — `divRemInPlaceDCFrontier`);
+  * §2 kernels: word / double-word divisors, Knuth D step and loop, Burnikel–Ziegler (relative
+        to the contract of `mul::add_signed_mul`), multi-word division;
   * §3 dispatch: `/`, `%`, `div_rem` on magnitudes = `Nat` `/ %`, zero divisor = DivideByZero;
   * §4 sign tables: the executable glue of the model equals the glue REGENERATED from /repo
         (`Dashu.Gen`, Tie A), whose meaning is proved in `Dashu.Props.GenInt`; hence every IBig /
@@ -96,6 +95,21 @@ theorem simple_div_rem_exact (W : Nat) (hW : 1 ≤ W) (lhs rhs : List Nat) (hn :
         + val W (out.take rhs.length) = val W lhs :=
   simpleDivRemInPlace_spec W hW lhs rhs hn hm hl hr hnorm
 
+/-- `divide_conquer::div_rem_in_place` (Burnikel–Ziegler: the block loop, `same_len` = two
+    `small_quotient` calls, the quotient estimate from the top `m` divisor words, the
+    `add_signed_mul` / conditional `sub_same_len` update and the `while rem_overflow < 0` correction
+    loop — which terminates within the model's fuel — and all its `assert!`/`debug_assert!`s):
+    lhs becomes [lhs % rhs, lhs / rhs] with quotient carry ≤ 1.  Relative to the CONTRACT of
+    `mul::add_signed_mul` (`subMulContract`; multiplication is C01's subject). -/
+theorem burnikel_ziegler_exact (W : Nat) (hW : 1 ≤ W) (lhs rhs : List Nat)
+    (hn : thresholdSimple < rhs.length) (hm : rhs.length + thresholdSimple < lhs.length)
+    (hl : IsWords W lhs) (hr : IsWords W rhs) (hnorm : 2 ^ (W * rhs.length) ≤ 2 * val W rhs) :
+    ∃ out c, bzDivRemInPlace W lhs rhs (highestDword W rhs) = .ok (out, c) ∧
+      out.length = lhs.length ∧ IsWords W out ∧ c ≤ 1 ∧ val W (out.take rhs.length) < val W rhs ∧
+      (val W (out.drop rhs.length) + c * 2 ^ (W * (lhs.length - rhs.length))) * val W rhs
+        + val W (out.take rhs.length) = val W lhs :=
+  bzDivRemInPlace_spec W hW lhs rhs hn hm hl hr hnorm
+
 /-- `div_rem_large` / `div_large` / `rem_large` (normalize, shifted dividend with `q_top`,
     in-place division, remainder shift-back with its `debug_assert_zero!`, `erase_front`):
     exact quotient and remainder, canonical results -/
@@ -157,6 +171,35 @@ theorem ubig_is_multiple_of_exact (W : Nat) (hW : 1 ≤ W) (a b : TRepr) (ha : a
       subst this; simp [TRepr.isZero]
     · have := TRepr.value_ne_zero_of_not_isZero hc hz
       simp [hz, this]
+
+/-- `UBig::is_multiple_of_const` / `IBig::is_multiple_of_const` (`is_multiple_of_dword`) for a
+    non-zero double-word divisor.  (A zero divisor reaches `dword % 0` resp.
+    `debug_assert!(rhs != 0)`: it panics, but not through `panic_divide_by_0` — see the model.) -/
+theorem is_multiple_of_const_exact (W : Nat) (hW : 1 ≤ W) (a : TRepr) (d : Nat) (ha : a.Canon W)
+    (hd0 : d ≠ 0) (hd : d < 2 ^ (2 * W)) :
+    isMultipleOfDword W a d = .ok (decide (a.value W % d = 0)) := by
+  have hpos : 0 < d := Nat.pos_of_ne_zero hd0
+  unfold isMultipleOfDword
+  by_cases hw : d < 2 ^ W
+  · rw [if_pos hw]
+    cases a with
+    | small x =>
+      simp only [hd0, if_false, TRepr.value_small]
+      exact congrArg Except.ok (decide_eq_decide.mpr Iff.rfl)
+    | large ws =>
+      have e := remByWord_spec W d ws ha.large_words ha.large_ne_nil hpos hw
+      simp only [hd0, if_false, e, bind, Except.bind, pure, Except.pure, TRepr.value_large]
+      exact congrArg Except.ok (decide_eq_decide.mpr Iff.rfl)
+  · rw [if_neg hw]
+    cases a with
+    | small x =>
+      simp only [TRepr.value_small]
+      exact congrArg Except.ok (decide_eq_decide.mpr Iff.rfl)
+    | large ws =>
+      have e := remByDword_spec W d hW ws ha.large_words (by have := ha.large_len; omega)
+        (Nat.le_of_not_lt hw) hd
+      simp only [e, bind, Except.bind, pure, Except.pure, TRepr.value_large]
+      exact congrArg Except.ok (decide_eq_decide.mpr Iff.rfl)
 
 -- ================================================================== §4 sign tables
 
@@ -584,6 +627,16 @@ example : (TRepr.large [5, 7, 2 ^ 64 - 1]).Canon 64 ∧ (TRepr.large [3, 2 ^ 64 
 example : (divRemHighestWord 64 (2 ^ 63) [0, 0, 0] [2 ^ 64 - 1, 2 ^ 64 - 1, 2 ^ 63]
     (highestDword 64 [2 ^ 64 - 1, 2 ^ 64 - 1, 2 ^ 63])).toOption.map Prod.fst = some (2 ^ 64 - 2) := by
   decide
+
+-- the Burnikel–Ziegler hypotheses are met by a 70-word dividend and a 33-word divisor (all words
+-- B−1): the divide-and-conquer path runs and reports a quotient carry
+example : thresholdSimple < (List.replicate 33 (2 ^ 64 - 1)).length ∧
+    (List.replicate 33 (2 ^ 64 - 1)).length + thresholdSimple < (List.replicate 70 (2 ^ 64 - 1)).length ∧
+    IsWords 64 (List.replicate 70 (2 ^ 64 - 1)) ∧ IsWords 64 (List.replicate 33 (2 ^ 64 - 1)) ∧
+    2 ^ (64 * (List.replicate 33 (2 ^ 64 - 1)).length) ≤ 2 * val 64 (List.replicate 33 (2 ^ 64 - 1)) ∧
+    (bzDivRemInPlace 64 (List.replicate 70 (2 ^ 64 - 1)) (List.replicate 33 (2 ^ 64 - 1))
+      (highestDword 64 (List.replicate 33 (2 ^ 64 - 1)))).toOption.map Prod.snd = some 1 := by
+  decide +kernel
 
 -- a ConstDivisor of the class that was defective before commit 2941615
 example : ((ConstDiv.new 64 (.small 0xc000000000000010)).toOption.bind
